@@ -246,6 +246,296 @@ def rand_group(rng, kind, nreq):
     return {"kind": kind, "items": items, "reqs": reqs}
 
 
+
+# ======================================================================================================
+# registration protocol over histories of (re)loads: the proxy's managed-endpoint map as state
+# ======================================================================================================
+PROTO_POLICY = {   # abstract expression of ProxyMapI -> a policy endpoint
+    "e1": {"name": "d1", "m": ["GET"], "h": ["a", "com"], "p": ["x"], "remedy": "on", "diags": []},
+    "e2": {"name": "d2", "m": ["POST"], "h": ["a", "com"], "p": ["y", "*"], "remedy": "on", "diags": ["on", "off"]},
+    "e3": {"name": "d3", "m": ["GET"], "h": ["api", "a", "com"], "p": ["{id}"], "remedy": "off", "diags": ["off", "on"]},
+}
+PROTO_FLOW = {
+    "e1": {"name": "f1", "m": ["GET"], "h": ["a", "com"], "p": ["x"]},
+    "e2": {"name": "f2", "m": [], "h": ["a", "com"], "p": ["y", "*"]},
+    "e3": {"name": "f3", "m": ["GET", "POST"], "h": ["api", "a", "com"], "p": ["{id}"]},
+}
+PROTO_REQS = {
+    "e1": {"m": "GET", "h": ["a", "com"], "p": ["x"], "var": ""},
+    "e2": {"m": "POST", "h": ["a", "com"], "p": ["y", "7"], "var": ""},
+    "e3": {"m": "GET", "h": ["api", "a", "com"], "p": ["42"], "var": ""},
+}
+CATCH_ALL_FLOW = {"name": "fall", "m": [], "h": ["*"], "p": []}
+
+
+def proto_enabled(it, mode):
+    return mode == "flow" or it.get("remedy") == "on" or "on" in it.get("diags", [])
+
+
+def history_of_walk(walk, mode):
+    """a ProxyMapI walk (GenC14P) -> executor history; the model's proxy state per step is kept for the drift report"""
+    table = PROTO_POLICY if mode == "policy" else PROTO_FLOW
+    steps = []
+    for st in walk:
+        if st["op"] == "drain":
+            steps.append({"op": "drain"})
+            continue
+        items = [dict(table[e]) for e in sorted(st["ex"])]
+        step = {"op": "load", "immediate": bool(st["imm"]) and mode == "policy", "global": False, "items": items}
+        if st["all"]:
+            if mode == "policy":
+                step["global"] = True
+            else:
+                step["items"] = items + [dict(CATCH_ALL_FLOW)]
+        steps.append(step)
+    reqs = [dict(PROTO_REQS[e], tag=e) for e in ("e1", "e2", "e3")] + [{"m": "PUT", "h": ["b", "com"], "p": ["q"], "var": "", "tag": "other"}]
+    return {"mode": mode, "steps": steps, "reqs": reqs, "model": walk}
+
+
+P_DIAGS = [[], [], ["on"], ["off"], ["on", "off"], ["off", "on"], ["off", "off"]]
+
+
+def rand_history(rng, mode, T):
+    """seeded random history: a pool of items, configurations evolve by keeping / dropping / adding items"""
+    pool = []
+    for i in range(rng.randint(3, 5)):
+        it = rand_item(rng, i + 1, "policy" if mode == "policy" else "flow")
+        if mode == "policy":
+            it["remedy"] = rng.choice(["on", "on", "on", "off", "none"])
+            it["diags"] = rng.choice(P_DIAGS)
+        if any(render(o["h"], o["p"]) == render(it["h"], it["p"]) for o in pool):
+            continue
+        clash = False
+        for o in pool:
+            if o["h"] == it["h"]:
+                for a, b in zip(o["p"], it["p"]):
+                    pa, pb = a.startswith("{") and a.endswith("}"), b.startswith("{") and b.endswith("}")
+                    if pa and pb and a != b:
+                        clash = True
+                    if a != b:
+                        break
+        if not clash:
+            pool.append(it)
+    rapid = rng.random() < 0.25
+    steps, cur = [], []
+    for k in range(rng.randint(3, 5 if not T else 6)):
+        if k == 0:
+            cur = [it for it in pool if rng.random() < 0.6] or pool[:1]
+        else:
+            cur = [it for it in cur if rng.random() < 0.7] + [it for it in pool if it not in cur and rng.random() < 0.35]
+        glob = rng.random() < 0.15
+        step = {"op": "load", "immediate": mode == "policy" and rng.random() < 0.2, "global": glob and mode == "policy",
+                "items": [dict(it) for it in cur] + ([dict(CATCH_ALL_FLOW)] if glob and mode == "flow" else [])}
+        steps.append(step)
+        if not rapid or rng.random() < 0.4:
+            steps.append({"op": "drain"})
+    if steps[-1]["op"] != "drain":
+        steps.append({"op": "drain"})
+    reqs, seen = [], set()
+    for it in pool:
+        p = []
+        for sgm in it["p"]:
+            p += ["7"] if sgm.startswith("{") and sgm.endswith("}") else (["x"] if sgm == "*" else [sgm])
+        for m in ([it["m"][0]] if it["m"] else ["GET", "HEAD"]):
+            key = (m, render(it["h"], p))
+            if key not in seen:
+                seen.add(key)
+                reqs.append({"m": m, "h": it["h"], "p": p, "var": ""})
+    reqs.append({"m": "PUT", "h": ["nowhere", "org"], "p": ["q"], "var": ""})
+    return {"mode": mode, "steps": steps, "reqs": reqs}
+
+
+def execute_proto(ctx, binary, hists, tag):
+    """every history in its own engine process (own fake proxy port, own cwd): process-wide state of the engine's
+    registration code must not leak from one history into the next - a history starts with a fresh proxy AND a fresh engine"""
+    import socket
+    d = ctx.sub("proto-" + tag)
+
+    def one(it):
+        i, h = it
+        inp, outp = os.path.join(d, "hist-%d.ndjson" % i), os.path.join(d, "out-%d.ndjson" % i)
+        with open(inp, "w") as f:
+            f.write(json.dumps({"mode": h["mode"], "steps": h["steps"],
+                                "reqs": [{k: v for k, v in r.items() if k != "tag"} for r in h["reqs"]]}) + "\n")
+        last = None
+        for attempt in range(3):          # a port clash with another process on this box: take another port
+            sk = socket.socket()
+            sk.bind(("127.0.0.1", 0))
+            port = str(sk.getsockname()[1])
+            sk.close()
+            cwd = os.path.join(d, "cwd-%d" % i)
+            os.makedirs(cwd, exist_ok=True)
+            p = ctx.run_harness(binary, ["proto", inp, outp, os.path.join(d, "work-%d" % i)], timeout=600, cwd=cwd, check=False,
+                                env={"HAPROXY_MANAGE_ENDPOINTS_PORT": port, "LUNAR_HEALTHCHECK_PORT": port})
+            if p.returncode == 0:
+                res = [json.loads(l) for l in open(outp) if l.strip()]
+                if len(res) == 1:
+                    return res[0]
+            last = p
+        raise Broken("protocol executor failed: rc=%s %s" % (last.returncode, (last.stderr or "")[-1500:]))
+    return parallel(one, list(enumerate(hists)), n=6)
+
+
+def proto_events(h, real):
+    """one block of trace events for a history"""
+    ev = [{"ev": "hist"}]
+    kind = "policy" if h["mode"] == "policy" else "flow"
+    for st, so in zip(h["steps"], real["steps"]):
+        if st["op"] == "load":
+            ev.append({"ev": "load", "items": [{"name": it["name"], "kind": kind, "m": it["m"], "h": it["h"], "p": it["p"]}
+                                               for it in st["items"] if proto_enabled(it, h["mode"])]})
+        else:
+            ev.append({"ev": "drain"})
+        for a in so["admin"]:
+            ev.append({"ev": "admin", "op": a["op"], "e": a["e"]})
+        for rq, pr in zip(h["reqs"], so["probes"]):
+            ev.append({"ev": "probe", "m": rq["m"], "h": rq["h"], "p": rq["p"], "var": rq.get("var", ""),
+                       "engine": pr["engine"], "matching": pr["matching"]})
+    return ev
+
+
+def proto_validate(ctx, blocks, tag, strict=False):
+    """ManagedProtoTrace over history blocks; a rejected history is removed and the rest validated again.
+    Returns (n_probes_accepted, rejected block indices with the rejected event, rapid hits)"""
+    sd = ctx.spec_dir(SPEC)
+    wd = os.path.join(ctx.scratch, "ptv-" + tag)
+    if not os.path.isdir(wd):
+        shutil.copytree(sd, wd, ignore=shutil.ignore_patterns("*.json", "*.ndjson", "states", "meta-*"))
+    live = list(range(len(blocks)))
+    rejected, rounds = [], 0
+    while True:
+        rounds += 1
+        flat, owner = [{"ev": "config"}], [None]
+        for bi in live:
+            for e in blocks[bi]:
+                flat.append(e)
+                owner.append(bi)
+        p = os.path.join(wd, "trace.ndjson")
+        write_ndjson(p, flat)
+        ok, hwm, r = ctx.tlc_trace(wd, "ManagedProtoTrace", p,
+                                   cfg="ManagedProtoTrace_strict.cfg" if strict else "ManagedProtoTrace.cfg", timeout=900)
+        hits = []
+        for line in r.out.splitlines():
+            if line.startswith('<<"KF-RAPID", '):
+                k = int(line.split(",")[1].strip(" >"))
+                hits.append((owner[k - 1], flat[k - 1]))
+        if ok:
+            return sum(1 for e in flat if e["ev"] == "probe"), rejected, hits
+        if hwm < 1 or hwm >= len(flat):
+            raise Broken("protocol trace validation made no progress (%s): %r\n%s" % (tag, r, r.out[-2000:]))
+        bad, bi = flat[hwm], owner[hwm]
+        if bad["ev"] != "probe":
+            raise Broken("protocol trace validation rejected a non-probe event (%s): %s" % (tag, json.dumps(bad)[:300]))
+        rejected.append((bi, bad, hwm - owner.index(bi)))
+        live.remove(bi)
+        if rounds >= 4 or not live:
+            return -sum(1 for e in flat[:hwm] if e["ev"] == "probe"), rejected, hits
+
+
+def proto_describe(h, ev, at):
+    steps = []
+    for st in h["steps"]:
+        if st["op"] == "drain":
+            steps.append("TTL passes")
+        else:
+            steps.append("load%s%s [%s]" % (" (unmanage immediately)" if st.get("immediate") else "", " +global" if st.get("global") else "",
+                                            ", ".join("%s %s%s" % ("|".join(it["m"]) or "any", render(it["h"], it["p"]),
+                                                                   "" if h["mode"] == "flow" else " r=%s d=%s" % (it["remedy"], "/".join(it["diags"]) or "-"))
+                                                      for it in st["items"])))
+    nsteps = sum(1 for e in ev[:at + 1] if e["ev"] in ("load", "drain"))
+    return {"mode": h["mode"], "history": steps, "after_step": nsteps,
+            "request": "%s %s" % (ev[at]["m"], render(ev[at]["h"], ev[at]["p"], ev[at]["var"])),
+            "engine": ev[at]["engine"], "matching_expressions": ev[at]["matching"]}
+
+
+def run_protocol(ctx, binary):
+    T = ctx.thorough
+    sd = ctx.spec_dir(SPEC)
+    # exhaustive: the model of the reload protocol keeps everything the current configuration needs managed
+    ctx.tlc_exhaustive(sd, "ProxyMapI", "MC_proto.cfg", timeout=600, label="reload protocol (policies mode): I => NoBypass on the resulting proxy map", workers=4)
+    ctx.tlc_exhaustive(sd, "ProxyMapI", "MC_proto_flow.cfg", timeout=600, label="reload protocol (flows mode): I => NoBypass on the resulting proxy map", workers=4)
+    for cfg, what in (("MC_proto_nv_ptr.cfg", "removal set by pointer difference"), ("MC_proto_nv_rapid.cfg", "rapid-reload class present")):
+        r = ctx.tlc(sd, "ProxyMapI", cfg, timeout=300, label="non-vacuity: %s must be refuted" % what, workers=2)
+        if r.violated is None:
+            raise Broken("non-vacuity run %s was not refuted: %r" % (cfg, r))
+    # spec -> code: walks of the model, replayed in policies mode and in flows mode
+    from vlib import tlc_vh_lines
+    n = 12 if not T else 100
+    hists, nwalks = [], 0
+    for mode, cfg in (("policy", "GenC14P.cfg"), ("flow", "GenC14P_flow.cfg")):
+        g = ctx.tlc(sd, "GenC14P", cfg, workers=1, simulate="num=%d" % n, depth=8, extra=["-seed", str(ctx.seed)],
+                    timeout=600, label="reload histories generated from ProxyMapI (%s mode)" % mode)
+        walks = tlc_vh_lines(g.out)
+        if len(walks) < n // 3:
+            raise Broken("history generation produced %d walks: %s" % (len(walks), g.out[-1500:]))
+        walks = walks[: (8 if not T else 80)]
+        nwalks += len(walks)
+        hists += [history_of_walk(w, mode) for w in walks]
+    # code -> spec: seeded random histories (keep / drop / re-add endpoints, disabled plugins, global, immediate, drained and rapid)
+    nr = 30 if not T else 400
+    hists += [rand_history(ctx.rng, "policy" if i % 3 else "flow", T) for i in range(nr)]
+    reals = execute_proto(ctx, binary, hists, "h")
+    blocks, used, drift, nprobe = [], [], 0, 0
+    for h, real in zip(hists, reals):
+        if real["err"]:
+            ctx.notes.append("history not executed (%s): %s" % (h["mode"], real["err"][:160]))
+            continue
+        ev = proto_events(h, real)
+        blocks.append(ev)
+        used.append(h)
+        nprobe += sum(1 for e in ev if e["ev"] == "probe")
+        # model drift (bookkeeping only): the model's proxy state vs the map the admin calls produce
+        if "model" in h:
+            m, a = set(), False
+            for st, so, ms in zip(h["steps"], real["steps"], h["model"]):
+                for op in so["admin"]:
+                    if op["op"] == "put":
+                        m.add(op["e"])
+                    elif op["op"] == "del":
+                        m.discard(op["e"])
+                    elif op["op"] == "manage_all":
+                        a = True
+                    elif op["op"] == "unmanage_global":
+                        a = False
+                for rq, pr in zip(h["reqs"], so["probes"]):
+                    if rq.get("tag") in ("e1", "e2", "e3"):
+                        if bool(m & set(pr["matching"])) != (rq["tag"] in ms["map"]) or a != ms["mall"]:
+                            drift += 1
+                            if drift == 1:
+                                ctx.notes.append("first difference from ProxyMapI: mode=%s walk=%s at step %d: real map=%s manage_all=%s" % (
+                                    h["mode"], json.dumps([{k: v for k, v in x.items()} for x in h["model"]]), h["model"].index(ms), sorted(m), a))
+    if len(blocks) < len(hists) * 2 // 3:
+        raise Broken("only %d of %d reload histories were executed" % (len(blocks), len(hists)))
+    ctx.cov["evaluations"] += nprobe
+    if drift:
+        ctx.cov["model_drift"] = True
+        ctx.notes.append("%d probes of generated reload histories differ from ProxyMapI's proxy state" % drift)
+    n_ok, rejected, hits = proto_validate(ctx, blocks, "h")
+    ctx.cov["traces_validated_against_impl"] += abs(n_ok)
+    ctx.log("reload protocol: %d histories (%d generated by TLC), %d probes, %d differ from the model; %d accepted, %d histories rejected, %d rapid-reload hits"
+            % (len(blocks), nwalks, nprobe, drift, abs(n_ok), len(rejected), len(hits)))
+    ctx.sample({"kind": "reload-history", "events": blocks[0][:10]})
+    for bi, e in hits[:1]:
+        w = proto_describe(used[bi], blocks[bi], next(i for i, x in enumerate(blocks[bi]) if x is e))
+        w["class"] = "rapid-reload"
+        ctx.violation(w, {"history": {k: v for k, v in used[bi].items() if k != "model"}})
+    for bi, bad, at in rejected[:3]:
+        h = used[bi]
+        w = proto_describe(h, blocks[bi], at)
+        w["class"] = "bypass-after-reload"
+        # reproduce: the same history again on the real code, judged again by the spec (flows: Go map order -> a few attempts)
+        for attempt in range(1 if h["mode"] == "policy" else 5):
+            real2 = execute_proto(ctx, binary, [h], "repro")[0]
+            if real2["err"]:
+                continue
+            _, rej2, _ = proto_validate(ctx, [proto_events(h, real2)], "repro")
+            if rej2:
+                break
+        else:
+            raise Broken("rejected reload history not reproduced: %s" % json.dumps(w)[:800])
+        ctx.violation(w, {"history": {k: v for k, v in h.items() if k != "model"}, "trace": blocks[bi]})
+    return blocks
+
 # ------------------------------------------------------------------------------------ run
 def groups_of_case_files(raw, level_for_flow):
     """MC_C14 group files -> executor groups; flow items are executed at the given level(s)"""
@@ -385,9 +675,13 @@ def run(ctx):
     if n1 + n2 == 0 and not ctx.violations:
         raise Broken("no real verdict was validated")
 
+    # (4b) the registration protocol over histories of (re)loads
+    pblocks = run_protocol(ctx, binary)
+
     # (5) binding self-test
     if T:
         selftest(ctx, blocks + rblocks)
+        selftest_proto(ctx, pblocks)
 
 
 def selftest(ctx, blocks):
@@ -423,9 +717,48 @@ def selftest(ctx, blocks):
     ctx.notes.append("self-test: %d corrupted recordings rejected (%s)" % (len(tests), ", ".join(n for n, _ in tests)))
 
 
+def selftest_proto(ctx, pblocks):
+    """a recorded reload history with one PUT dropped / one DELETE added must be rejected"""
+    for b in pblocks:
+        for i, e in enumerate(b):
+            if e["ev"] == "probe" and e["engine"] and len(e["matching"]) == 1:
+                x = e["matching"][0]
+                puts = [j for j, a in enumerate(b[:i]) if a["ev"] == "admin" and a["op"] == "put" and a["e"] == x]
+                if not puts or any(a["ev"] == "admin" and a["op"] == "manage_all" for a in b):
+                    continue
+                dropped = [a for j, a in enumerate(b) if j not in puts]
+                _, rej, _ = proto_validate(ctx, [dropped], "selftest", strict=False)
+                added = b[:i] + [{"ev": "admin", "op": "del", "e": x}] + b[i:]
+                _, rej2, _ = proto_validate(ctx, [added], "selftest", strict=False)
+                if not rej or not rej2:
+                    raise Broken("self-test: reload history with a dropped PUT / an added DELETE was accepted")
+                ctx.notes.append("self-test: reload history with a dropped PUT and with an added DELETE rejected")
+                return
+    raise Broken("self-test: no suitable reload history recorded")
+
+
 def replay(ctx, path):
     obj = json.load(open(path))
     binary = ctx.build_harness("c14")
+    if "history" in obj["replay"]:
+        h = obj["replay"]["history"]
+        for attempt in range(1 if h["mode"] == "policy" else 5):
+            real = execute_proto(ctx, binary, [h], "replay")[0]
+            if real["err"]:
+                print("history not executed: %s" % real["err"])
+                return 2
+            ev = proto_events(h, real)
+            _, rej, hits = proto_validate(ctx, [ev], "replay")
+            if rej:
+                break
+        for e in ev:
+            print(json.dumps(e))
+        if rej:
+            print("VIOLATION property=C14 replay=%s" % path)
+            print("   rejected: %s" % json.dumps(rej[0][1])[:400])
+            return 1
+        print("replay accepted%s" % (" only as the recorded finding class rapid-reload" if hits else " by the specification"))
+        return 0
     g = obj["replay"]["group"]
     # engine level: what is registered may depend on Go map iteration order of one engine build -> up to 20 builds
     for attempt in range(20 if g["kind"] == "engine" else 1):
